@@ -167,6 +167,17 @@ type VReq struct {
 	Prio     int    `json:"prio"`
 	MemType  string `json:"memtype"`
 	HideHT   bool   `json:"hide_ht"`
+	// inputs of the decision table, as computed by the policy's own helpers
+	InQoS        string `json:"in_qos"`
+	InMilli      int    `json:"in_milli"`
+	InPreserve   bool   `json:"in_preserve"`
+	InPrefRes    bool   `json:"in_prefer_reserved"`
+	InExplRes    bool   `json:"in_explicit_reservation"`
+	InNsReserved bool   `json:"in_ns_reserved"`
+	InIso        bool   `json:"in_isolated"`
+	InIsoKind    int    `json:"in_isolated_kind"`
+	InShared     bool   `json:"in_shared"`
+	InSharedKind int    `json:"in_shared_kind"`
 }
 
 type cacheContainer = cache.Container
@@ -183,6 +194,22 @@ func VerifPrefs(ci interface{}) *VReq {
 	}
 	full, fraction, isolate, cpuType, prio := cpuAllocationPreferences(pod, c)
 	_, _, mtype := memoryAllocationPreference(pod, c)
-	return &VReq{Full: full, Fraction: fraction, Isolate: isolate, CPUType: cpuType.String(), Prio: int(prio), MemType: mtype.String(),
+	r := &VReq{Full: full, Fraction: fraction, Isolate: isolate, CPUType: cpuType.String(), Prio: int(prio), MemType: mtype.String(),
 		HideHT: hideHyperthreadsPreference(pod, c)}
+	reqs, ok := c.GetResourceUpdates()
+	if !ok {
+		reqs = c.GetResourceRequirements()
+	}
+	q := reqs.Requests["cpu"]
+	r.InQoS = string(pod.GetQOSClass())
+	r.InMilli = int(q.MilliValue())
+	r.InPreserve = c.PreserveCpuResources()
+	r.InPrefRes, r.InExplRes = checkReservedCPUsAnnotations(c)
+	r.InNsReserved = checkReservedPoolNamespaces(c.GetNamespace())
+	var k prefKind
+	r.InIso, k = isolatedCPUsPreference(pod, c)
+	r.InIsoKind = int(k)
+	r.InShared, k = sharedCPUsPreference(pod, c)
+	r.InSharedKind = int(k)
+	return r
 }
